@@ -114,7 +114,8 @@ def natural_promptness(ctx, s4, rng, d):
     worker extracts it). Beside it 0..30 small sources that are done within milliseconds (not-evtx payloads that fail, or
     valid ones), so their temporary files are gone when the signal comes. Decided on order, not on a stopwatch: the
     uninterrupted run of the same argv takes T; the interrupted run (signal ~0.4 s after the temporary file appeared) must
-    end before 0.6 T; ending at >= 0.9 T means the interrupt waited for the worker; in between is inconclusive."""
+    end before 0.6 T; ending at >= 0.9 T (and at least 1.5 s after the signal) means the interrupt waited for the worker; in
+    between is inconclusive."""
     import lzma
     big = os.path.join(d, "big.evtx.xz")
     rnd = rng.getrandbits(64)
@@ -258,7 +259,7 @@ def run(ctx):
                 ctx.inconc("promptness-natural: source too fast to tell")
             elif r["t_exit"] < 0.6 * tf:
                 ctx.count("promptness (no hooks): prompt")
-            elif r["t_exit"] >= 0.9 * tf:
+            elif r["t_exit"] >= 0.9 * tf and r["t_exit"] - r["t_sig"] >= 1.5:
                 ctx.violation("C18|interrupt-not-acted-upon-while-a-worker-extracts|%s" % ("solo" if j["phase"].endswith("solo") else "beside-finished-sources"),
                               "SIGINT at %.2f s, exit at %.2f s; the uninterrupted run takes %.2f s (%s)" % (r["t_sig"], r["t_exit"], tf, j["phase"]), info=info)
             else:
